@@ -255,3 +255,8 @@ func rowsDigest(rows []*storage.Row) string {
 	}
 	return fmt.Sprintf("%d rows #%x", len(rows), uint64(h))
 }
+
+func isSelectText(q string) bool {
+	q = strings.TrimSpace(q)
+	return len(q) >= 6 && strings.EqualFold(q[:6], "select")
+}
